@@ -6,8 +6,8 @@ Open Scope string_scope.
 Definition one (n : string) := filter (fun fd => String.eqb (fn_name fd) n) eon_program.
 Eval vm_compute in (report eon_program (one "Gillespie_simple_contagion")).
 Eval vm_compute in (dead_report eon_program (one "Gillespie_simple_contagion")).
-Eval vm_compute in (report eon_program (one "Gillespie_SIS")).
-Eval vm_compute in (dead_report eon_program (one "Gillespie_SIS")).
+Eval vm_compute in (report eon_program (one "discrete_SIR")).
+Eval vm_compute in (dead_report eon_program (one "discrete_SIR")).
 Eval vm_compute in (report eon_program (one "_get_NkNl_and_IC_as_arrays_")).
 Eval vm_compute in (dead_report eon_program (one "_get_NkNl_and_IC_as_arrays_")).
 Eval vm_compute in (report eon_program (one "SIR_effective_degree_from_graph")).
